@@ -50,7 +50,7 @@ CHECKS = {
              'the character at that position, otherwise %XX of itself; _HEX_CHAR_MAP inverts every escape (unsat queries). (2) For each of six '
              'components a symbolic ASCII character between two context characters: all components recovered after full-quote render + parse, '
              'nothing leaks, rendered characters legal, unquote(quote(v)) == v, full-quote and (no %) minimal-quote fixed points. (3) URL(text) '
-             'returns or raises URLParseError and find_all_links never raises, for a free character from all ASCII + 18 non-ASCII class '
+             'returns or raises URLParseError and find_all_links never raises, for a free character from all ASCII + 22 non-ASCII class '
              'representatives alone and inside 11 skeletons. Bounded model checking.',
         note='Trusted: CrossHair string/regex model, z3, RFC sets written in the harness, NFC == identity on ASCII (stub). Outside: non-ASCII component text beyond the byte-level lemma, longer values, rendering totality.',
         ref='C06'),
